@@ -14,5 +14,7 @@
 // limitations under the License.
 
 fn main() {
+    // `flacenc_verif` guards verification-only hooks (off by default).
+    println!("cargo:rustc-check-cfg=cfg(flacenc_verif)");
     built::write_built_file().expect("Failed to acquire build-time information")
 }
